@@ -32,6 +32,15 @@ class InjectedInterrupt(KeyboardInterrupt):
         self.tag = tag
 
 
+class InjectedBase(BaseException):
+    """A BaseException that is neither an Exception nor an interrupt (what `sys.exit()` in a callback or a
+    framework's own control-flow exception is), raised inside a task of a worker thread."""
+
+    def __init__(self, tag):
+        super().__init__('injected-base:%s' % (tag,))
+        self.tag = tag
+
+
 def retryable_error(kind, tag):
     if kind == 'incomplete':
         e = IncompleteReadError(actual_bytes=0, expected_bytes=1)
